@@ -2,8 +2,10 @@ HOOK_COMMITS = ["cbdc291", "c5df4fc", "57485bb", "21f5b8c", "b16838a", "6999814"
 NOT_APPLICABLE = {}
 CLAIMS = {
  'C13': dict(category='proof', ref='5 Core C, 8 C13',
-   text="Lean 4 theorems over all operation histories: the code-shaped ring+index-map queue refines a FIFO list (C13_refines), "
-        "exactly-once FIFO hand-back with byte-identical requests (C13_exactly_once_fifo), release only when terminal and eagerly "
+   text="Lean 4 theorems over all operation histories: the code-shaped ring+index-map queue with its ping FIFO refines a FIFO list "
+        "plus a FIFO of identifier-less ping requests (C13_refines), "
+        "exactly-once FIFO hand-back with byte-identical requests (C13_exactly_once_fifo; for any number of outstanding pings "
+        "C13_pings_exactly_once_fifo, C13_pings_released_answered, C13_pingresp_effect), release only when terminal and eagerly "
         "(C13_released_terminal, C13_release_eager), unknown acks are no-ops; the regenerated switch tables equal the protocol's "
         "(C13_tables_are_protocol); model tied to sessions/ackqueue.go by differential runs (real code vs model vs specification)"),
  'C06': dict(category='proof', ref='5 Core B, 8 C06',
@@ -63,7 +65,7 @@ _CLIENT_TEXT = ("Sequential Lean model of the client role (Connect, publish/subs
                 "processIncoming as a client) tied to the real service.Client by differential runs against a scripted TCP peer (PINGREQ "
                 "barrier from the peer; the ack-before-registration interleaving is forced through the verif ack-window hook), and "
                 "compared event by event with a reference client written from MQTT 3.1.1 and the property text. %s")
-CLAIMS['C12'] = dict(category='exploration', ref='8 C12', text=_CLIENT_TEXT % "Theorems: under construction. Known findings E5 (ack processed before registration is lost), single ping slot, replayed on every run.",
+CLAIMS['C12'] = dict(category='exploration', ref='8 C12', text=_CLIENT_TEXT % "Theorems: under construction. Known finding E5 (ack processed before registration is lost) replayed on every run.",
                      technique="Lean 4 executable model + reference specification, differential correspondence with forced interleaving; proofs in progress")
 CLAIMS['C20'] = dict(category='exploration', ref='8 C20', text=_CLIENT_TEXT % "Theorems: under construction. Known finding E9 (callback invoked once per matching filter of one request) replayed on every run.",
                      technique="Lean 4 executable model + reference specification, differential correspondence; proofs in progress")
@@ -93,7 +95,8 @@ _PARTIAL_SCHED = (" PARTIAL: theorems are about the sequential model (one event 
                   "counterexamples and whose witnesses are replayed on the real code on every run; and not beginning with '$': such topics are "
                   "outside the properties' quantifier, the store turns them away and the oracle leaves events naming them open).")
 CLAIMS['C01'] = dict(category='proof', ref='5 Core E, 8 C01', text=_BROKER_TEXT % (
-    "Theorems (9): exact ordered outputs of the fan-out loop incl. the in-place message mutation (C01_fanout_char, C01_fanout_ids); onPublish delivers to "
+    "Theorems (10): exact ordered outputs of the live fan-out incl. the in-place message mutation - RETAIN cleared once before the loop for connections and "
+    "in-process callbacks alike, restored after it (C01_fanout_char on fanoutLive, C01_fanout_loop on the bare loop, C01_fanout_ids); onPublish delivers to "
     "exactly one copy per trie entry whose filter matches under section 4.7, at min(publish QoS, granted QoS), same topic, identical payload, and to "
     "nobody else (C01_publish_reaches_matching_partial, _reachable_partial without the liveness hypothesis, C01_publish_held_partial / "
     "C01_nobody_else_partial in terms of the reference broker's held list); after any history (C01_after_history_partial); after a connection end "
@@ -107,8 +110,10 @@ CLAIMS['C07'] = dict(category='proof', ref='5 Core E, 8 C07', text=_BROKER_TEXT 
     "(C07_effective_after_suback_partial, C07_none_after_unsuback_partial); the held list of the reference broker is maintained (C07_held_refines_partial, "
     "_srv_partial; B3 counterexample); regenerated maximum QoS = specification's (C07_facts_maxQos); invariant preserved by every step (C07_inv_step/_run).") + _PARTIAL_SCHED)
 CLAIMS['C08'] = dict(category='proof', ref='5 Core E, 8 C08', text=_BROKER_TEXT % (
-    "Theorems (18): every PUBLISH forwarded by onPublish/fanout (any step other than a SUBSCRIBE) to a connection carries RETAIN=0 "
-    "(C08_forward_retain_zero, C08_fanout_retain_zero, C08_step_retain_zero); E10 callback counterexample as a closed term; the retain step stores / "
+    "Theorems (19): every PUBLISH forwarded by onPublish/fanoutLive (any step other than a SUBSCRIBE) to a connection and every live forward handed to an "
+    "in-process callback (any step other than its own Server.Subscribe) carries RETAIN=0 (C08_forward_retain_zero, _all, C08_fanout_retain_zero, "
+    "C08_step_retain_zero); an in-process subscriber sees RETAIN=0 on a live forward and RETAIN=1 on the retained delivery at subscription time "
+    "(C08_callback_retain; E10, repaired by 4cf3ecf); the retain step stores / "
     "replaces / clears exactly that topic (C08_retain_step_partial, C08_one_per_topic_partial, C08_other_topics_untouched_partial, C08_retained_untouched); "
     "the store is the last non-empty retained publish per topic (C08_spec_most_recent, C08_retain_refines_partial, C08_history_partial); after the SUBACK, "
     "per granted filter in request order, exactly the stored messages matching it, RETAIN=1, QoS min(stored, granted), payload as stored "
@@ -226,13 +231,15 @@ CLAIMS['C04'] = dict(category='proof', ref='5 Core A, 8 C04',
     note='Trusted: Lean kernel; axioms propext/Classical.choice/Quot.sound only; Go harness + line protocol + fact extractor; Go runtime semantics assumed by the model (see evidence.assumptions)')
 
 CLAIMS['C12'] = dict(category='proof', ref='8 C12', text=_CLIENT_TEXT % (
-    "Theorems (31, all histories / all reachable states): PUBREC answered by exactly PUBREL (C12_pubrec_pubrel); QoS 0 completes in the sending step "
+    "Theorems (32, all histories / all reachable states): PUBREC answered by exactly PUBREL (C12_pubrec_pubrel); QoS 0 completes in the sending step "
     "(C12_qos0_completes_at_once); per-queue conservation and exactly-once FIFO completion (C12_queue_conservation, C12_exactly_once_fifo), a terminal ack "
     "fires exactly the longest terminal prefix, never before a request's own terminal ack, eagerly (C12_completion_timing, C12_completion_no_later, "
-    "C12_terminal_only_by_own_ack, C12_release_eager); identifiers in flight pairwise distinct in every reachable state and non-zero (C12_inflight_ids_distinct, "
+    "C12_terminal_only_by_own_ack, C12_release_eager); pings, any number outstanding: every completion exactly once in call order, the n-th PINGRESP "
+    "completes the n-th Ping (C12_ping_exactly_once_fifo, C12_ping_completion_timing, C12_two_pings_both_complete); identifiers in flight pairwise distinct in every reachable state and non-zero (C12_inflight_ids_distinct, "
     "C12_identifier_nonzero_iff/_partial); refinement of the reference client event by event on admitted histories (C12_refines_spec_partial/_step) with closed "
-    "counterexamples showing every excluded class is needed (E5 early ack, ping slot, E9, B3, late PUBREC, SUBACK code, auto id). Known findings E5 and the "
-    "single ping slot are replayed on the real code on every run with the interleaving forced through the ack-window hook.") +
+    "counterexamples showing every excluded class is needed (E5 early ack, E9, B3, late PUBREC, SUBACK code, auto id); several outstanding pings are "
+    "admitted (C12_refines_spec_pings; the single ping slot was repaired, its witness is a regression case). Known finding E5 is "
+    "replayed on the real code on every run with the interleaving forced through the ack-window hook.") +
     " PARTIAL: timing ('promptly') is not modelled; the step granularity of a sending call is {write, register} as delimited by the hook.")
 CLAIMS['C20'] = dict(category='proof', ref='8 C20', text=_CLIENT_TEXT % (
     "Theorems (10): Connect succeeds iff CONNACK code 0, returns the refusal code otherwise, and changes nothing in every non-success case (C20_connect); "
